@@ -70,8 +70,8 @@ class IgnoreDirectiveParser:
         with suppress(KeyError):
             return self._ignore_cache[path_str]
         try:
-            check_path = str(file_path.relative_to(self.project_root))
-        except ValueError:
+            check_path = str(file_path.resolve().relative_to(self.project_root.resolve()))
+        except (ValueError, OSError):
             check_path = path_str
         result = any(matches_pattern(check_path, p) for p in self.repo_patterns)
         self._ignore_cache[path_str] = result
